@@ -26,6 +26,9 @@ type libHmm struct {
 	// emission e[c][k]: log density of emission distribution c at observation k
 	emission func(c, k int) (float64, error)
 	n        int
+	// spec, if set, replaces the tables read back from the model: the
+	// enumeration then runs on the model AS SPECIFIED (history monitor)
+	spec *tables
 }
 
 // readTables reads the public parameters of the model and evaluates the
@@ -215,7 +218,10 @@ func genStateSets(r *prng.Rand, m, n int, allowEmpty bool) [][]int {
 // case was not judged).
 func judgeQueries(j *hmmJudge, h *libHmm, r *prng.Rand, extra func(en *enumeration, t *tables)) *enumeration {
 	cs := j.cs
-	t, err := readTables(h)
+	t, err := h.spec, error(nil)
+	if t == nil {
+		t, err = readTables(h)
+	}
 	if err != nil {
 		cs.Skip("emission-error")
 		return nil
